@@ -1,16 +1,45 @@
-(* C15 -- the program store is an ordered map (statements grow with Proofs/Store.v). *)
-From BL Require Import Base.Prelude Lang.Token Mach.Listing.
+(* C15 -- the program store is an ordered map with exact LIST / DELETE ranges.
+   Statements only; proofs in Proofs/Store.v.  `get ls n` is the abstract map behind the list of lines, `asc ls`
+   says the line numbers ascend strictly (the BTreeMap's order). *)
+From BL Require Import Base.Prelude Lang.Token Mach.Listing Proofs.Store.
+From Coq Require Import String.
 Local Open Scope N_scope.
 
-(* inserting a line makes exactly that line readable *)
 Theorem C15_insert_lookup : forall ls n t, lines_has (lines_insert ls n t) n = true.
-Proof.
-  intros ls n t. unfold lines_has. induction ls as [| [m u] r IH]; cbn.
-  - rewrite N.eqb_refl. reflexivity.
-  - destruct (N.ltb_spec n m) as [Hlt | Hge]; cbn.
-    + rewrite N.eqb_refl. reflexivity.
-    + destruct (N.eqb_spec n m) as [-> | Hne]; cbn.
-      * rewrite N.eqb_refl. reflexivity.
-      * destruct (N.eqb_spec m n); [congruence | exact IH].
-Qed.
+Proof. exact old_C15_insert_lookup. Qed.
 Print Assumptions C15_insert_lookup.
+
+(* a numbered line inserts or replaces, and nothing else changes *)
+Theorem C15_insert : forall ls n t k, asc ls ->
+  asc (lines_insert ls n t) /\ Store.get (lines_insert ls n t) k = if n =? k then Some t else Store.get ls k.
+Proof. intros ls n t k H. split; [exact (insert_asc ls n t H) | exact (get_insert ls n t k H)]. Qed.
+Print Assumptions C15_insert.
+
+(* a bare number deletes, and nothing else changes *)
+Theorem C15_remove : forall ls n k, asc ls ->
+  asc (lines_remove ls n) /\ Store.get (lines_remove ls n) k = if n =? k then None else Store.get ls k.
+Proof. intros ls n k H. split; [exact (remove_asc ls n H) | exact (get_remove ls n k)]. Qed.
+Print Assumptions C15_remove.
+
+(* DELETE a-b removes exactly the lines inside the inclusive range *)
+Theorem C15_delete_range : forall ls a b k, asc ls ->
+  asc (delete_range ls a b) /\ Store.get (delete_range ls a b) k = if in_rng a b k then None else Store.get ls k.
+Proof. intros ls a b k H. split; [exact (filter_asc _ ls H) | exact (get_delete_range ls a b k)]. Qed.
+Print Assumptions C15_delete_range.
+
+(* LIST a-b: iterating Listing::list_line as the runtime does yields exactly the lines of the inclusive range, ascending *)
+Theorem C15_list_range : forall fuel l a b, asc (ls_lines l) -> (forall e, In e (ls_lines l) -> fst e <= 65529) ->
+  a <= b -> (List.length (in_range_lines (ls_lines l) a b) < fuel)%nat ->
+  list_texts fuel l a b = Ok (map text_of (in_range_lines (ls_lines l) a b)).
+Proof. exact list_range_spec. Qed.
+Print Assumptions C15_list_range.
+
+(* membership in the abstract map and in the list coincide on ascending lists *)
+Theorem C15_get_In : forall ls n t, asc ls -> (Store.get ls n = Some t <-> In (n, t) ls).
+Proof. intros ls n t H. split; [apply get_In | apply In_get; exact H]. Qed.
+Print Assumptions C15_get_In.
+
+Example C15_witness :
+  let l := mkListing [(10, [TWord WEnd]); (20, [TWord WStop]); (30, [TWord WEnd])] [] [] in
+  asc (ls_lines l) /\ list_texts 5 l 15 30 = Ok [s2l "20 STOP"%string; s2l "30 END"%string].
+Proof. split; [repeat constructor | vm_compute; reflexivity]. Qed.
